@@ -4,9 +4,12 @@ import asyncio
 from dataclasses import dataclass, field
 from typing import TYPE_CHECKING
 
+from repid.message import MessageCategory
+
 if TYPE_CHECKING:
     from datetime import datetime
 
+    from repid.connections.abc import ConsumerT
     from repid.data.protocols import ParametersT, RoutingKeyT
 
 
@@ -23,6 +26,21 @@ class DummyQueue:
     delayed: dict[datetime, list[Message]] = field(default_factory=dict)
     dead: list[Message] = field(default_factory=list)
     processing: set[Message] = field(default_factory=set)
+    # consumer which has taken each of the in-flight messages
+    taken_by: dict[Message, ConsumerT] = field(default_factory=dict)
+
+    def put_back(self, msg: Message) -> None:
+        """Returns an in-flight message to the category it was consumed from."""
+        category = getattr(self.taken_by.pop(msg, None), "category", MessageCategory.NORMAL)
+        if category == MessageCategory.DEAD:
+            self.dead.append(msg)
+        elif (
+            category == MessageCategory.DELAYED
+            and (delay := wait_until(msg.parameters)) is not None
+        ):
+            self.delayed.setdefault(delay, []).append(msg)
+        else:
+            self.simple.put_nowait(msg)
 
 
 def wait_until(params: ParametersT | None = None) -> datetime | None:
